@@ -34,7 +34,7 @@ theorem wWrite_spec (P : Params) (st : St) (sbn : Nat) (d : Bytes) :
     SameSt st (wWrite P st sbn d).1 ∧
     ((wWrite P st sbn d).2 = true → (wWrite P st sbn d).1.written = st.written ++ d) ∧
     (noComplete st.out → noComplete (wWrite P st sbn d).1.out) := by
-  refine ⟨⟨rfl, rfl, rfl, rfl, rfl, rfl, rfl⟩, ?_, ?_⟩
+  refine ⟨⟨rfl, rfl, rfl, rfl, rfl, rfl, rfl, rfl, rfl, rfl, rfl, rfl, rfl, rfl⟩, ?_, ?_⟩
   · intro h
     simp only [wWrite] at h
     simp [wWrite, St.written, writtenOf, h]
@@ -153,7 +153,7 @@ structure BwPost (P : Params) (st : St) (w : BW) (data : Bytes) (st' : St) : Pro
         (w'.bytesLeft = 0 → w'.md5 = if st'.md5Check then some (P.md5 st'.written) else none) ∧
         (w.cenc = .null → w.dz = none → st'.written = st.written ++ trimTo w.bytesLeft data ∧ w'.dz = none)
 
-theorem sameSt_setBw (st : St) (w : BW) : SameSt st { st with bw := some w } := ⟨rfl, rfl, rfl, rfl, rfl, rfl, rfl⟩
+theorem sameSt_setBw (st : St) (w : BW) : SameSt st { st with bw := some w } := ⟨rfl, rfl, rfl, rfl, rfl, rfl, rfl, rfl, rfl, rfl, rfl, rfl, rfl, rfl⟩
 
 theorem bwFinish_dz_none (P : Params) (st : St) (w : BW) (h : w.dz = none) : bwFinish P st w = .ok (st, w, true) := by
   unfold bwFinish; rw [h]
